@@ -107,11 +107,13 @@ func (db *SpecDB) loadExterns(dir string) error {
 // isImmutableHeap reports whether a heap holds fields of a type declared
 // "immutable" in a contract file.
 func (db *SpecDB) isImmutableHeap(heap string) bool {
-	if !strings.HasPrefix(heap, "|H:") {
-		return false
-	}
 	for t := range db.immutable {
-		if strings.HasPrefix(heap, "|H:"+t+".") {
+		// fields of the type, and slices of pointers to it (plan lists)
+		if strings.HasPrefix(heap, "|H:"+t+".") || heap == "|E:*"+t+"|" {
+			return true
+		}
+		// maps owned by such objects (map[K]*T)
+		if (strings.HasPrefix(heap, "|MH:map[") || strings.HasPrefix(heap, "|MV:map[") || strings.HasPrefix(heap, "|ML:map[")) && strings.HasSuffix(heap, "]*"+t+"|") {
 			return true
 		}
 	}
